@@ -21,6 +21,7 @@ OPS = [
     ('delete_trial', 1), ('delete_trial', 9), ('get_trial', 1), ('get_trial', 9), ('materialize_trial', 1), ('trial_parameters', 1),
     ('trials',), ('optimal_trials',), ('add_trial', 'in'), ('add_trial', 'out'), ('add_trial', 'completed'), ('request',),
     ('update_metadata', 'study'), ('update_metadata', 1), ('update_metadata', 9),
+    ('update_metadata', 'study', 'big'), ('update_metadata', 9, 'big'), ('request', 'big'),      # 40 kB arguments, also on the error paths
     ('set_state', 'ABORTED'), ('set_state', 'COMPLETED'), ('set_state', 'ACTIVE'), ('materialize_state',), ('materialize_problem',), ('materialize_study_config',),
     ('from_resource_name', 'existing'), ('from_resource_name', 'missing'), ('delete_study',),
 ]
@@ -186,11 +187,16 @@ def run_op(dep, op):
         t.complete(vz.Measurement({'m': 3.0}))
         r = study.add_trial(t).id
     elif k == 'request':
-      r = study.request(vz.TrialSuggestion({'x': 0.125})).id
+      sg = vz.TrialSuggestion({'x': 0.125})
+      if len(op) > 1:
+        sg.metadata['blob'] = 'x' * 40000
+      r = study.request(sg).id
     elif k == 'update_metadata':
       md = vz.Metadata()
       md['k'] = 'v'
       md.ns('n')['k2'] = 'w'
+      if len(op) > 2:
+        md['blob'] = 'x' * 40000
       r = study.update_metadata(md) if op[1] == 'study' else clients.Trial(client, op[1]).update_metadata(md)
     elif k == 'set_state':
       r = study.set_state(getattr(vz.StudyState, op[1]))
@@ -384,7 +390,7 @@ def run(ctx):
     for op in OPS:
       progs.append((prefix, [op]))
     for b in blocking:
-      for x in (nonblocking if not ctx.quick else [o for o in nonblocking if o[0] in ('set_state', 'delete_trial', 'complete', 'update_metadata', 'add_trial', 'stop')]):
+      for x in (nonblocking if not ctx.quick else [o for o in nonblocking if o[0] in ('set_state', 'delete_trial', 'complete', 'update_metadata', 'add_trial', 'stop') and len(o) < 3]):
         progs.append((prefix, [b, x]))
   chunks = [progs[i::16] for i in range(16)]
   gd = deps if not ctx.quick else deps[:4]
